@@ -199,7 +199,7 @@ pub enum MaybeTlsStream {
     /// A Tls wrapped [`tokio::net::TcpStream`]
     Tls(tokio_rustls::server::TlsStream<tokio::net::TcpStream>),
     /// An in-memory bidirectional pipe.
-    #[cfg(test)]
+    #[cfg(any(test, iroh_verif))]
     Test(tokio::io::DuplexStream),
 }
 
@@ -212,7 +212,7 @@ impl MaybeTlsStream {
     /// If this fails, this will print a warning the first time it fails.
     pub(super) fn disable_nagle(&self) {
         let stream = match self {
-            #[cfg(test)]
+            #[cfg(any(test, iroh_verif))]
             Self::Test(_) => return,
             Self::Plain(stream) => stream,
             Self::Tls(tls_stream) => tls_stream.get_ref().0,
@@ -258,7 +258,7 @@ impl AsyncRead for MaybeTlsStream {
         match &mut *self {
             MaybeTlsStream::Plain(s) => Pin::new(s).poll_read(cx, buf),
             MaybeTlsStream::Tls(s) => Pin::new(s).poll_read(cx, buf),
-            #[cfg(test)]
+            #[cfg(any(test, iroh_verif))]
             MaybeTlsStream::Test(s) => Pin::new(s).poll_read(cx, buf),
         }
     }
@@ -272,7 +272,7 @@ impl AsyncWrite for MaybeTlsStream {
         match &mut *self {
             MaybeTlsStream::Plain(s) => Pin::new(s).poll_flush(cx),
             MaybeTlsStream::Tls(s) => Pin::new(s).poll_flush(cx),
-            #[cfg(test)]
+            #[cfg(any(test, iroh_verif))]
             MaybeTlsStream::Test(s) => Pin::new(s).poll_flush(cx),
         }
     }
@@ -284,7 +284,7 @@ impl AsyncWrite for MaybeTlsStream {
         match &mut *self {
             MaybeTlsStream::Plain(s) => Pin::new(s).poll_shutdown(cx),
             MaybeTlsStream::Tls(s) => Pin::new(s).poll_shutdown(cx),
-            #[cfg(test)]
+            #[cfg(any(test, iroh_verif))]
             MaybeTlsStream::Test(s) => Pin::new(s).poll_shutdown(cx),
         }
     }
@@ -297,7 +297,7 @@ impl AsyncWrite for MaybeTlsStream {
         match &mut *self {
             MaybeTlsStream::Plain(s) => Pin::new(s).poll_write(cx, buf),
             MaybeTlsStream::Tls(s) => Pin::new(s).poll_write(cx, buf),
-            #[cfg(test)]
+            #[cfg(any(test, iroh_verif))]
             MaybeTlsStream::Test(s) => Pin::new(s).poll_write(cx, buf),
         }
     }
@@ -310,7 +310,7 @@ impl AsyncWrite for MaybeTlsStream {
         match &mut *self {
             MaybeTlsStream::Plain(s) => Pin::new(s).poll_write_vectored(cx, bufs),
             MaybeTlsStream::Tls(s) => Pin::new(s).poll_write_vectored(cx, bufs),
-            #[cfg(test)]
+            #[cfg(any(test, iroh_verif))]
             MaybeTlsStream::Test(s) => Pin::new(s).poll_write_vectored(cx, bufs),
         }
     }
@@ -319,7 +319,7 @@ impl AsyncWrite for MaybeTlsStream {
         match self {
             MaybeTlsStream::Plain(s) => s.is_write_vectored(),
             MaybeTlsStream::Tls(s) => s.is_write_vectored(),
-            #[cfg(test)]
+            #[cfg(any(test, iroh_verif))]
             MaybeTlsStream::Test(s) => s.is_write_vectored(),
         }
     }
